@@ -135,6 +135,9 @@ func driveXIBC(t *testing.T, in, out string, seed int64) {
 				line["res"], line["msg"] = resOf(r), clip(r.Log)
 				line["sig"] = "UpdateClient/" + str(st["signer"])
 				line["registered"] = w.Chains[on].App.XIBCKeeper.ClientKeeper.AuthRelayer(w.Chains[on].Ctx(), w.ID[str(st["counter"])], w.Chains[on].Accts[signerIdx(str(st["signer"]))].Acc.String())
+			case "UpgradeRev":
+				res, msg := w.UpgradeRev(on, str(st["counter"]))
+				line["res"], line["msg"], line["sig"] = res, clip(msg), "UpgradeRev"
 			case "Regenesis":
 				res, msg := w.Regenesis(on)
 				line["res"], line["msg"], line["sig"] = res, clip(msg), "Regenesis"
